@@ -3,12 +3,15 @@ package main
 import (
 	"encoding/json"
 	"fmt"
+	"math"
 	"net/url"
 	"os"
 	"path/filepath"
 	"strconv"
+	"strings"
 	"time"
 
+	"github.com/ogen-go/ogen/conv"
 	"github.com/ogen-go/ogen/gen"
 
 	"verifharness/internal/gc"
@@ -176,6 +179,52 @@ func c13Generated(r *lp.Run) {
 				if fmt.Sprint(srv["params"]) != fmt.Sprint(given["params"]) {
 					r.Fail(lp.PropFail{Property: "C13", What: "the value that arrives differs from the value sent", Input: in, Observed: fmt.Sprint(srv["params"]), Expected: fmt.Sprint(given["params"])})
 				}
+			}
+		}
+	}
+}
+
+// Unix timestamps against the Lean model (UnixT): text → time.Time → (sec, nsec) and back to the integer
+func c13Unix(r *lp.Run, rng *lp.Rand) {
+	type unit struct {
+		name string
+		from func(string) (time.Time, error)
+		to   func(time.Time) string
+	}
+	units := []unit{
+		{"seconds", conv.ToUnixSeconds, conv.UnixSecondsToString},
+		{"milli", conv.ToUnixMilli, conv.UnixMilliToString},
+		{"micro", conv.ToUnixMicro, conv.UnixMicroToString},
+		{"nano", conv.ToUnixNano, conv.UnixNanoToString},
+	}
+	var vals []int64
+	for _, b := range []int64{0, 1, -1, 999, 1000, -999, -1000, -1001, 999999, 1000000, -1000001, 999999999, 1000000000, -1000000001, 1700000000, 1700000000123, 1700000000123456, 1700000000123456789, math.MaxInt64, math.MinInt64, math.MaxInt64 - 1, math.MinInt64 + 1, 1 << 53, -(1 << 53)} {
+		vals = append(vals, b)
+	}
+	for i := 0; i < r.N(3000, 100000); i++ {
+		v := int64(rng.Uint64()) >> uint(rng.Intn(64))
+		if rng.Bool() {
+			v = -v
+		}
+		vals = append(vals, v)
+	}
+	for _, u := range units {
+		for _, v := range vals {
+			if u.name == "seconds" && (v > 1<<55 || v < -(1<<55)) {
+				continue // time.Time's own range: seconds beyond ±2^55 overflow the internal representation
+			}
+			s := strconv.FormatInt(v, 10)
+			out := lp.Guard(func() string {
+				t, err := u.from(s)
+				if err != nil {
+					return "err"
+				}
+				return fmt.Sprintf("%d %d %s", t.Unix(), t.Nanosecond(), u.to(t))
+			})
+			r.Case("unixt", u.name+" "+s, out, "unix:"+u.name, true)
+			r.PropCheck()
+			if f := strings.Fields(out); len(f) != 3 || f[2] != s {
+				r.Fail(lp.PropFail{Property: "C13", What: "unix-" + u.name + ": text does not parse back to the same text", Input: map[string]string{"text": s}, Observed: out, Expected: "… " + s})
 			}
 		}
 	}
